@@ -799,6 +799,15 @@ impl<A: Flavour> Case<A> {
   /// `<STATE>` of PROTOCOL.md
   fn state(&self) -> String {
     let a = self.cur();
+    // canonicalisation: the 4 trailing padding bytes of the in-memory header are left uninitialised by the
+    // crate (`header.write(H::new(..))`); reading them is UB and their content is noise, so define them as 0
+    // (never on a read-only mapping)
+    {
+      let d = a.data_offset();
+      if a.unify() && !a.read_only() && d >= 4 && d <= a.capacity() {
+        unsafe { std::ptr::write_bytes(a.raw_mut_ptr().add(d - 4), 0, 4) };
+      }
+    }
     let (nodes, truncated) = a.snap(4096);
     let mut fl = String::new();
     for (i, (o, s)) in nodes.iter().enumerate() {
@@ -1653,18 +1662,28 @@ impl Session {
         if let Some(s) = self.force_sync {
           r.sync = s;
         }
+        // implementation-side oracle `pk`: are the bytes that were in the file before this open still there
+        // (the file may only have grown)?
+        let before = std::fs::read(&path).ok();
+        let pk = |path: &Path| -> u8 {
+          match (&before, std::fs::read(path).ok()) {
+            (Some(b), Some(a)) => (a.len() >= b.len() && a[..b.len()] == b[..]) as u8,
+            (None, _) => 1,
+            (Some(_), None) => 0,
+          }
+        };
         let built: Result<Box<dyn CaseInner>, String> = if r.sync {
           Case::<sync::Arena>::reopen(&self.cfg, &r, &path).map(|c| Box::new(c) as Box<dyn CaseInner>)
         } else {
           Case::<unsync::Arena>::reopen(&self.cfg, &r, &path).map(|c| Box::new(c) as Box<dyn CaseInner>)
         };
         match built {
-          Err(kind) => format!("r={kind} {}", sig()),
+          Err(kind) => format!("r={kind} pk={} {}", pk(&path), sig()),
           Ok(mut c) => {
             let obs = c.reopen_obs();
             self.case = Some(c);
             match obs {
-              Some((head, state)) => format!("r=ok {head} {} {state}", sig()),
+              Some((head, state)) => format!("r=ok {head} pk={} {} {state}", pk(&path), sig()),
               None => "r=panic".to_string(),
             }
           }
